@@ -94,6 +94,20 @@ func (o *c01Obs) got(ids ...int) {
 	o.mu.Unlock()
 }
 
+// drainNext consumes an iterator with the documented Next / Value loop
+// (one consumer per iterator object).
+func drainNext(ctx context.Context, it *fun.Iterator[int], sp kit.Speed, seed uint64, n int) []int {
+	var out []int
+	for k := 0; it.Next(ctx); k++ {
+		if sp != kit.Fast {
+			kit.Yields(int(seed+uint64(k)) % 2)
+		}
+		out = append(out, it.Value())
+		sp.Pace(k, n, seed+uint64(k))
+	}
+	return out
+}
+
 func drain(ctx context.Context, it *fun.Iterator[int], sp kit.Speed, seed uint64, n int) []int {
 	var out []int
 	for k := 0; ; k++ {
@@ -156,11 +170,16 @@ func c01Case(r *kit.Run, idx int64, rng *rand.Rand) {
 			ordered = w == 1
 			splits := c01Source(n, srcSp, seed).Split(w)
 			var wg sync.WaitGroup
+			useNext := seed%2 == 0 // each output driven by its own Next/Value loop, as documented
 			for _, s := range splits {
 				wg.Add(1)
 				go func(s *fun.Iterator[int]) {
 					defer wg.Done()
-					obs.got(drain(ctx, s, conSp, seed, n)...)
+					if useNext {
+						obs.got(drainNext(ctx, s, conSp, seed, n)...)
+					} else {
+						obs.got(drain(ctx, s, conSp, seed, n)...)
+					}
 				}(s)
 			}
 			wg.Wait()
